@@ -400,7 +400,9 @@ func genCheckIn(r *rec.Rand, valid bool) checkIn {
 		for i := 0; i < n; i++ {
 			t := rec.Pick(r, validCtxTuples).clone()
 			if t.hasCond {
-				if r.Chance(2, 3) {
+				// beyond 12 tuples Go's sort is no longer the modelled insertion sort: keep tied
+				// tuples identical there (mostly), so that the sorted order is unique
+				if r.Chance(2, 3) && (n <= 12 || r.Chance(1, 10)) {
 					t.ctx = genStruct(r, 1)
 				} else {
 					t.ctx = emptyStruct()
@@ -419,7 +421,11 @@ func genCheckIn(r *rec.Rand, valid bool) checkIn {
 				// deliberately provoke ties: same object/relation/user, maybe another condition/context
 				t := rec.Pick(r, c.tuples).clone()
 				t.nilPtr = false
-				switch r.Intn(4) {
+				how := r.Intn(4)
+				if n > 12 && !r.Chance(1, 10) {
+					how = 0
+				}
+				switch how {
 				case 0:
 				case 1:
 					if t.hasCond {
